@@ -109,6 +109,9 @@ type OtherT struct{ A []int }
 	add("submethod-name-equals-explicit-method", scratch.Tree{"p/p.go": "package p\n\ntype In struct{ V int }\ntype Out struct{ V int }\ntype W struct{ X In }\ntype WT struct{ X Out }\n\n// goverter:converter\ntype Conv interface {\n\tConvert(source W) WT\n\t// a declared method whose name is the one goverter would give the generated helper for In -> Out\n\tPInToPOut(source []In) []Out\n}\n"}, map[string]string{})
 	add("unexported-enum-member-other-package", scratch.Tree{"p/p.go": "package p\n\ntype Lv int\n\nconst (\n\tLvLow         Lv = 1\n\tLvHigh        Lv = 2\n\tlvDebugHidden Lv = 99\n)\n\ntype Tv int\n\nconst (\n\tTvLow         Tv = 11\n\tTvHigh        Tv = 12\n\tTvDebugHidden Tv = 19\n\tTvUnknown     Tv = 0\n)\n\n// goverter:converter\n// goverter:enum:unknown TvUnknown\ntype Conv interface {\n\t// goverter:enum:transform regex (?i)lv(\\w+) Tv$1\n\tConvert(source Lv) Tv\n}\n"}, map[string]string{})
 	add("type-id-collides-with-err", scratch.Tree{"e/e.go": "package e\n\ntype Rr struct{ V int }\ntype rr struct{ V int }\n\ntype In struct{ X rr }\ntype Out struct{ X *rr }\n\nfunc F(s rr) (*rr, error) { return &s, nil }\n\n// goverter:converter\n// goverter:output:file ./gen.go\n// goverter:extend F\ntype Conv interface {\n\tConvert(source In) (Out, error)\n}\n"}, map[string]string{})
+	// D28: every field of an inline struct conversion skipped (ignoreMissing): the range / element variable must still count as used
+	add("ignoremissing-skips-every-field-map-value", scratch.Tree{"p/p.go": "package p\n\n// goverter:converter\n// goverter:ignoreMissing\ntype C interface {\n\tConvert(source map[string]struct{ A int }) map[string]struct{ B int }\n}\n"}, map[string]string{})
+	add("ignoremissing-skips-every-field-slice-element", scratch.Tree{"p/p.go": "package p\n\n// goverter:converter\n// goverter:ignoreMissing\ntype C interface {\n\tConvert(source []struct{ A int }) []struct{ B int }\n}\n"}, map[string]string{})
 	// D26: a helper generated for a recursive type gains an error result / a context argument after another helper was
 	// already emitted with a call of its old signature (fixed by 7c4d1f2: callers are rebuilt)
 	add("recursive-helper-gains-error-result-late", scratch.Tree{"p/p.go": "package p\n\nimport \"strconv\"\n\ntype Node struct {\n\tNext  *Node\n\tValue string\n}\ntype OutNode struct {\n\tNext  *OutNode\n\tValue int\n}\ntype Outer struct{ N Node }\ntype OuterT struct{ N OutNode }\n\nfunc Atoi(s string) (int, error) { return strconv.Atoi(s) }\n\n// goverter:converter\n// goverter:extend Atoi\ntype C interface {\n\tConvert(source Outer) (OuterT, error)\n}\n"}, map[string]string{})
